@@ -62,11 +62,37 @@ fn generate_thread_local_branch(
     let invalidation_check = generate_invalidation_check(invalidate_on);
     let cache_condition = generate_cache_condition(cache_if, has_max_memory, is_result);
 
+    // verification hook (feature "verif" only): expose this thread's storage
+    let verif_probe = if cfg!(feature = "verif") {
+        quote! {
+            {
+                static VERIF_PROBE_ONCE: ::std::sync::Once = ::std::sync::Once::new();
+                VERIF_PROBE_ONCE.call_once(|| {
+                    cachelito_core::verif::register_probe(stringify!(#cache_ident), |cmd| {
+                        #cache_ident.with(|c| {
+                            #order_ident.with(|o| {
+                                cachelito_core::verif::probe_sync(
+                                    &mut c.borrow_mut(),
+                                    &mut o.borrow_mut(),
+                                    cmd,
+                                );
+                            })
+                        })
+                    });
+                });
+            }
+        }
+    } else {
+        quote! {}
+    };
+
     quote! {
         thread_local! {
             static #cache_ident: RefCell<std::collections::HashMap<String, CacheEntry<#ret_type>>> = RefCell::new(std::collections::HashMap::new());
             static #order_ident: RefCell<VecDeque<String>> = RefCell::new(VecDeque::new());
         }
+
+        #verif_probe
 
         let __cache = ThreadLocalCache::<#ret_type>::new(
             &#cache_ident,
@@ -232,6 +258,24 @@ fn generate_global_branch(
         }
     };
 
+    // verification hook (feature "verif" only): expose the global storage
+    let verif_probe = if cfg!(feature = "verif") {
+        quote! {
+            {
+                static VERIF_PROBE_ONCE: ::std::sync::Once = ::std::sync::Once::new();
+                VERIF_PROBE_ONCE.call_once(|| {
+                    cachelito_core::verif::register_probe(stringify!(#cache_ident), |cmd| {
+                        let mut o = #order_ident.lock();
+                        let mut m = #cache_ident.write();
+                        cachelito_core::verif::probe_sync(&mut m, &mut o, cmd);
+                    });
+                });
+            }
+        }
+    } else {
+        quote! {}
+    };
+
     quote! {
         // ...existing code...
         static #cache_ident: once_cell::sync::Lazy<parking_lot::RwLock<std::collections::HashMap<String, CacheEntry<#ret_type>>>> =
@@ -254,6 +298,7 @@ fn generate_global_branch(
 
         #invalidation_registration
         #invalidation_callback_registration
+        #verif_probe
 
         #[cfg(feature = "stats")]
         let __cache = GlobalCache::<#ret_type>::new(
